@@ -104,6 +104,18 @@ func genEmuConfig(r *rand.Rand) procdrv.EmuConfig {
 	c.AmfPort, c.StgPort = 1024+r.Intn(60000), 1024+r.Intn(60000)
 	c.DLIface, c.ULIface = "verif-none0", "verif-none1"
 	c.UeNumber = 1
+	if r.Intn(5) == 0 { // two keys that happen to hold the same value are still two keys
+		switch r.Intn(4) {
+		case 0:
+			c.ULIface = c.DLIface
+		case 1:
+			c.StgIP = c.AmfIP
+		case 2:
+			c.StgPort = c.AmfPort
+		default:
+			c.ULIface, c.StgIP = c.DLIface, c.AmfIP
+		}
+	}
 	c.QuoteStyle = r.Intn(3)
 	if r.Intn(6) == 0 { // a TAB inside a value, escaped or as the character itself: white space inside a scalar is content
 		c.LiteralTab = r.Intn(3) != 0
